@@ -12,11 +12,11 @@ import (
 )
 
 func verifHostilePoint(name string, ec elliptic.Curve) *crypto.ECPoint {
-	x := v.NondetNat(name + "_x")
-	y := v.NondetNat(name + "_y")
-	p, err := crypto.NewECPoint(ec, x, y)
-	v.Assume("point-accepted-by-NewECPoint", err == nil)
-	return p
+	// every point of secp256k1 (cofactor 1) other than the identity is k*G; on edwards25519
+	// this is the prime-order subgroup (small-order components: the C17 harnesses)
+	k := v.NondetNat(name + "_k")
+	v.Assume("hostile-point-not-identity", !v.CongMod(k, big.NewInt(0), ec.Params().N))
+	return crypto.ScalarBaseMult(ec, k)
 }
 
 // C06 family 1: Share.Verify returns for every share value, id and on-curve commitments.
